@@ -266,6 +266,7 @@ def run(ctx):
     compound_bind.run_phase(ctx, documents_only=True)
     anytype_markers(ctx)
     inherited_namespaces(ctx)
+    qname_enumerations(ctx)
 
 
 def replay(ctx, doc):
@@ -275,6 +276,52 @@ def replay(ctx, doc):
     else:
         print("replay of recorded-trace cases: re-run the check with the same seed:", doc.get("seed"))
         print(json.dumps(case, indent=1)[:3000])
+
+
+def qname_enumerations(ctx):
+    """An enumeration whose members are QNames (xs:QName / NOTATION enumerations, SOAP fault codes): wherever a member is
+    written - element text, attribute, token list - it is a LEXICAL QName whose prefix is in scope and names the member's
+    namespace.  Read with the independent infoset parser."""
+    from dataclasses import dataclass, field
+    from enum import Enum
+    from typing import List, Optional
+    from xml.etree.ElementTree import QName
+
+    from .. import infoset
+
+    from ..poly_models import QCode as Code
+    from ..poly_models import QFault as Fault
+
+    def expanded(member):
+        q = member.value.text
+        return tuple(q[1:].split("}", 1)) if q.startswith("{") else ("", q)
+
+    xctx = XmlContext()
+    for codes in ([Code.SENDER, Code.OTHER], [Code.OTHER, Code.SENDER], [Code.LOCAL, Code.SENDER]):
+        obj = Fault(code=codes[0], sub=list(codes), toks=list(codes), kind=codes[1])
+        for be in ("native", "lxml"):
+            for nm in (None, {None: "urn:codes"}, {"c": "urn:codes", "o": "urn:other"}, {"ns0": "urn:other"}):
+                if Code.LOCAL in codes and nm and None in nm:
+                    continue        # (an unprefixed QName VALUE under a default namespace has no spelling without it)
+                ctx.case(("qname-enum", tuple(c.name for c in codes), be, repr(nm)))
+                info = {"object": repr(obj), "backend": be, "ns_map": repr(nm)}
+                try:
+                    text = rb.render(obj, xctx, be, ns_map=dict(nm) if nm else None)
+                    root = infoset.parse(text)
+                except Exception as ex:  # noqa: BLE001
+                    ctx.violation(f"QName enumeration: render / re-read failed ({be}): {type(ex).__name__}: {ex}", info)
+                    continue
+                got = []
+                for el in infoset.elements(root):
+                    txt = "".join(c for c in el["content"] if isinstance(c, str))
+                    if el["name"][1] in ("code", "sub"):
+                        got.append((el["name"][1], [infoset.resolve_qname(txt, el["nsmap"])]))
+                    elif el["name"][1] == "toks":
+                        got.append(("toks", [infoset.resolve_qname(t, el["nsmap"]) for t in txt.split()]))
+                kind = infoset.resolve_qname(root["attrs"].get(("", "kind"), ""), root["nsmap"])      # (QName VALUES take the default namespace, also in attributes)
+                want = [("code", [expanded(codes[0])])] + [("sub", [expanded(c)]) for c in codes] + [("toks", [expanded(c) for c in codes])]
+                if got != want or kind != expanded(codes[1]):
+                    ctx.violation(f"QName enumeration members written as {got} / attribute {kind}; the members are {want} / {expanded(codes[1])}: {text}"[:900], {**info, "text": text})
 
 
 def anytype_markers(ctx):
